@@ -1006,6 +1006,11 @@ def _as_iter(pe, st, v):
         "std::array::iter::<impl std::iter::IntoIterator for [T; N]>::into_iter",
         "core::slice::iter::<impl std::iter::IntoIterator for &'a [T]>::into_iter", "core::slice::<impl [T]>::iter")
 def _into_iter(pe, st, args, t):
+    a0 = args[0]
+    if a0 != TOP and a0[0] == "ref":
+        tgt = pe._load_ptr(st, a0[1])
+        if tgt != TOP and tgt[0] == "iter":
+            return a0  # `for x in iter.by_ref()` / `for x in &mut iter`: the reference itself is the iterator
     it = _as_iter(pe, st, args[0])
     if it is None:
         v = args[0]
@@ -1184,6 +1189,14 @@ def _next(pe, st, args, t):
     if r == TOP or r[0] != "ref":
         raise _Abort("top", "next() on an unknown iterator")
     cur = pe._load_ptr(st, r[1])
+    for _ in range(3):
+        # &mut &mut I: advance the iterator the inner reference points to
+        if cur != TOP and cur[0] == "ref":
+            inner = pe._load_ptr(st, cur[1])
+            if inner != TOP and inner[0] == "iter":
+                r, cur = cur, inner
+                continue
+        break
     it = _as_iter(pe, st, cur)
     if it is None:
         raise _Abort("top", "next() on an unknown iterator")
@@ -1714,6 +1727,32 @@ def _slice_parts(pe, st, args, t):
     if nm == "split_first":
         return some(("tuple", (ref_to({"cidx": 0, "fe": False}), ref_to({"sub": (1, n)}))))
     return some(("tuple", (ref_to({"cidx": n - 1, "fe": False}), ref_to({"sub": (0, n - 1)}))))
+
+
+@pmodel("core::slice::<impl [T]>::copy_within")
+def _copy_within(pe, st, args, t):
+    r, rng, dest = args
+    v = _deref(pe, st, r)
+    if r == TOP or r[0] != "ref" or r[1][0] != "place" or v == TOP or v[0] not in ("array", "hview", "harr") or rng == TOP or rng[0] != "adt" \
+            or dest == TOP or dest[0] != "int":
+        raise _Abort("top", "copy_within() on an unknown slice/range")
+    n = _seq_len(pe, v)
+    kind = rng[1].rsplit("::", 1)[1]
+    if any(x == TOP or x[0] != "int" for x in rng[4]):
+        raise _Abort("top", "copy_within() with unknown bounds")
+    vals = [x[2] for x in rng[4]]
+    table = {"Range": lambda: (vals[0], vals[1]), "RangeFrom": lambda: (vals[0], n), "RangeTo": lambda: (0, vals[0]),
+             "RangeFull": lambda: (0, n), "RangeToInclusive": lambda: (0, vals[0] + 1), "RangeInclusive": None}
+    if table.get(kind) is None:
+        raise _Abort("top", "copy_within() with an unsupported range")
+    lo, hi = table[kind]()
+    if not (lo <= hi <= n) or dest[2] > n - (hi - lo):
+        raise _Abort("diverge", "copy_within(%d..%d, %d) out of range for length %d" % (lo, hi, dest[2], n))
+    items = _seq_items(pe, v)
+    base = r[1]
+    for k in range(hi - lo):
+        pe.store_ptr(st, ("place", base[1], base[2], tuple(base[3]) + ({"cidx": dest[2] + k, "fe": False},)), items[lo + k])
+    return UNIT
 
 
 @pmodel("core::slice::<impl [T]>::fill")
